@@ -1,5 +1,5 @@
 (* Props_C08.v — property C08: theorem statements only. *)
-From Verif Require Import Base Sem Where_Model Where_Proofs.
+From Verif Require Import Base Sem Where_Model Where_Proofs Where_Render Where_Sem.
 
 (* Whatever conditions a chain supplies (any number of Where/Not/Or calls in any order, any
    form), the WHERE expressions of a soft-delete statement never contain an OR alternative at
@@ -16,3 +16,38 @@ Theorem c08_no_reordering : forall live nlive exprs,
   swap_first (soft_delete_exprs live nlive exprs) = soft_delete_exprs live nlive exprs.
 Proof. exact soft_delete_no_swap. Qed.
 Print Assumptions c08_no_reordering.
+
+(* MAIN: for every list of user expressions (any chain, leading Or included) the WHERE text of a
+   soft-delete statement parses under SQL precedence and means, in Kleene logic and for every
+   row valuation,  (the user's conditions read left to right with AND/OR precedence) AND
+   (deleted_at IS NULL): no condition form can make a soft-deleted row satisfy it.
+   [ok_where] (raw SQL parses; every combined expression is parenthesised by gorm or is a single
+   factor) is evaluated by the checker on every case (C08_Check.theorem_applies). *)
+Theorem c08_filter_is_conjunct : forall v live nlive exprs E,
+  ok_where (soft_delete_exprs live nlive exprs) = true ->
+  parse (where_tokens (soft_delete_exprs live nlive exprs)) = Some E ->
+  evE v E = tv_and (val_list v exprs) (v live).
+Proof. exact soft_delete_filter_conjunct. Qed.
+Print Assumptions c08_filter_is_conjunct.
+
+(* and the text does parse, to the explicit tree [toE_where] *)
+Theorem c08_where_parses : forall exprs, ok_where exprs = true ->
+  parse (where_tokens exprs) = Some (toE_where exprs).
+Proof. exact where_parses. Qed.
+Print Assumptions c08_where_parses.
+
+Theorem c08_deleted_row_never_selected : forall v live nlive exprs E,
+  ok_where (soft_delete_exprs live nlive exprs) = true ->
+  parse (where_tokens (soft_delete_exprs live nlive exprs)) = Some E ->
+  v live <> TT -> evE v E <> TT.
+Proof.
+  intros v live nlive exprs E H1 H2 Hl. rewrite (soft_delete_filter_conjunct v live nlive exprs E H1 H2).
+  destruct (val_list v exprs), (v live); cbn; congruence.
+Qed.
+Print Assumptions c08_deleted_row_never_selected.
+
+(* non-vacuity: leading Or of a raw OR condition plus a map condition *)
+Example c08_instance :
+  let exprs := [XOr [XRaw true [TAtom 1; TOr; TAtom 2]]; XAnd [XAtom 3 53; XAtom 4 54]] in
+  ok_where (soft_delete_exprs 40 90 exprs) = true.
+Proof. vm_compute. reflexivity. Qed.
